@@ -62,6 +62,33 @@ func personKey(ps []*sbom.Person) string {
 	return fmt.Sprintf("name=%q org=%v email=%q", p.Name, p.IsOrg, p.Email)
 }
 
+// unrepresentableActor: the SPDX actor mini-syntax is "Name (email)"; a name that ends in a parenthesised group cannot be
+// told from name + e-mail when no e-mail follows, and an e-mail cannot contain blanks or parentheses.
+func unrepresentableActor(ps []*sbom.Person) bool {
+	if len(ps) == 0 {
+		return false
+	}
+	p := ps[0]
+	if p.Email == "" && strings.HasSuffix(strings.TrimSpace(p.Name), ")") && strings.Contains(p.Name, "(") {
+		return true
+	}
+	return strings.ContainsAny(p.Email, " \t\n()")
+}
+
+// actorNeedsJSONEscape: the actor's name or e-mail contains a character the JSON encoder writes as an escape sequence
+// (the SPDX library's actor decoder strips the quotes without undoing escapes: known finding).
+func actorNeedsJSONEscape(ps []*sbom.Person) bool {
+	if len(ps) == 0 {
+		return false
+	}
+	for _, r := range ps[0].Name + ps[0].Email {
+		if r < 0x20 || r == '"' || r == '\\' || r == '<' || r == '>' || r == '&' || r == 0x2028 || r == 0x2029 {
+			return true
+		}
+	}
+	return false
+}
+
 func dateKey(t *timestamppb.Timestamp) string {
 	if t == nil {
 		return ""
@@ -138,6 +165,12 @@ func attrs(n *sbom.Node, in bool) map[string]string {
 	a["valid_until_date"] = dateKey(n.ValidUntilDate)
 	a["supplier"] = personKey(n.Suppliers)
 	a["originator"] = personKey(n.Originators)
+	if in && unrepresentableActor(n.Suppliers) {
+		a["supplier"] = "*"
+	}
+	if in && unrepresentableActor(n.Originators) {
+		a["originator"] = "*"
+	}
 	return a
 }
 
@@ -187,7 +220,11 @@ func RoundTrip(t *engine.T, d *sbom.Document, indent int) *engine.Violation {
 				continue
 			}
 			if got[k] != w {
-				return engine.Violate("attribute", k, "node %s attribute %s: wrote %q, read back %q", n.Id, k, w, got[k])
+				trig := k
+				if (k == "supplier" && actorNeedsJSONEscape(n.Suppliers)) || (k == "originator" && actorNeedsJSONEscape(n.Originators)) {
+					trig = "actor-needs-json-escape"
+				}
+				return engine.Violate("attribute", trig, "node %s attribute %s: wrote %q, read back %q", n.Id, k, w, got[k])
 			}
 		}
 	}
@@ -282,6 +319,15 @@ func stringContents(c *engine.Ctx) {
 		{"pkg.extref.comment", func(p, f *sbom.Node, v string) {
 			p.ExternalReferences = []*sbom.ExternalReference{{Type: sbom.ExternalReference_NPM, Url: "https://r/x", Comment: v}}
 		}},
+		{"pkg.supplier.name(+email)", func(p, f *sbom.Node, v string) { p.Suppliers = []*sbom.Person{{Name: v, Email: "info@example.com", IsOrg: true}} }},
+		{"pkg.supplier.name", func(p, f *sbom.Node, v string) { p.Suppliers = []*sbom.Person{{Name: v}} }},
+		{"pkg.originator.name(+email)", func(p, f *sbom.Node, v string) { p.Originators = []*sbom.Person{{Name: v, Email: "o@example.com"}} }},
+		{"pkg.originator.name", func(p, f *sbom.Node, v string) { p.Originators = []*sbom.Person{{Name: v, IsOrg: true}} }},
+		{"pkg.supplier.email", func(p, f *sbom.Node, v string) { p.Suppliers = []*sbom.Person{{Name: "Sup Plier", Email: v}} }},
+		{"pkg.license_concluded", func(p, f *sbom.Node, v string) { p.LicenseConcluded = v }},
+		{"pkg.url_download", func(p, f *sbom.Node, v string) { p.UrlDownload = "https://d/" + v }},
+		{"pkg.cpe23", func(p, f *sbom.Node, v string) { p.Identifiers = map[int32]string{int32(sbom.SoftwareIdentifierType_CPE23): "cpe:2.3:a:" + v} }},
+		{"file.hash", func(p, f *sbom.Node, v string) { f.Hashes = map[int32]string{int32(sbom.HashAlgorithm_SHA1): v} }},
 		{"pkg.purl", func(p, f *sbom.Node, v string) {
 			p.Identifiers = map[int32]string{int32(sbom.SoftwareIdentifierType_PURL): "pkg:generic/" + v}
 		}},
@@ -297,6 +343,9 @@ func stringContents(c *engine.Ctx) {
 	for si := range slots {
 		for mi := range ms {
 			si, mi := si, mi
+			if slots[si].Name == "pkg.supplier.email" && strings.ContainsAny(ms[mi], " \t\n()\"\\<>&") {
+				continue // not an e-mail address: outside the actor mini-syntax
+			}
 			c.Case(func() any { return map[string]string{"attribute": slots[si].Name, "value": ms[mi]} }, func(t *engine.T) *engine.Violation {
 				p := &sbom.Node{Id: "a", Name: "pkg"}
 				f := &sbom.Node{Id: "b-1", Name: "file", Type: sbom.Node_FILE}
